@@ -9,16 +9,21 @@
    Hypotheses: the clock strings are digits (they come from time.strftime); for the 997 only, gs06_ok: the echoed GS06
    of the group the envelope is built from does not contain '*' and does not end in '~' (the 997 builds GE as text and
    re-parses it).  Both are shown necessary by machine-checked counterexamples.
-   PARTIAL: not proved here — that the text re-read by the reader draws no envelope error (follows from this recount
-   plus the C04/C01 theorems only when every echoed value is free of the acknowledgement's delimiters: recorded
-   finding C06-echo-splits-element), the element count of the TEXT of the 997's ISA (finding: empty ISA15), the case
-   where the visitor raises (swallowed by x12n_document: the acknowledgement is cut short), and that the
-   acknowledgement re-validates.  Those are the subject of the oracle of the check. *)
+   Re-reading (Proofs/C06_reread*.v): the recount implies that the reader, given those segments, reports no envelope
+   error (C06_recount_reader_silent: any delimiters, with or without TA1), and — C06_997_rereads / C06_999_rereads —
+   when in addition every echoed value is free of '~' and '*', the ISA fields have their fixed widths and GS06 is not
+   empty (computable echo_clean_997 / _999 on the handler state; each conjunct shown necessary by a proved
+   counterexample: C06_997_empty_gs06_draws_error is a recorded finding, the echoed terminator is the recorded finding
+   C06-echo-splits-element), the TEXT written, tokenised under any read schedule and read by the reader, comes back
+   as exactly those segments with no envelope error on any of them and nothing reported at the end of input.
+   PARTIAL: not proved — the case where the visitor raises (swallowed by x12n_document: the acknowledgement is cut
+   short), and that the acknowledgement re-validates against the 997 / 999 map.  Those are the subject of the oracle
+   of the check. *)
 From Coq Require Import String.
 From PX.Lib Require Import Base PyStr.
-From PX.Model Require Import Path Segment Errh Writer Ack997 Ack999.
-From PX.Spec Require Import C06_spec.
-From PX.Proofs Require Import C06_ack997 C06_ack999 C06_ack.
+From PX.Model Require Import Path Segment Raw Reader Errh Writer Ack997 Ack999.
+From PX.Spec Require Import C01_spec C04_spec C06_spec C12_spec.
+From PX.Proofs Require Import C04_reader C06_ack997 C06_ack999 C06_ack C06_reread C06_reread997 C06_reread999 C06_reread_examples.
 
 Theorem C06_997_envelope_recount :
   forall ck h h' lines,
@@ -57,3 +62,61 @@ Theorem C06_997_short_isa_when_isa15_empty :
 " :: rest, None)).
 Proof. exact isa15_empty_short_line. Qed.
 Print Assumptions C06_997_short_isa_when_isa15_empty.
+
+(* the recount is enough for the reader: no envelope error on any segment, none at the end of input *)
+Theorem C06_recount_reader_silent :
+  forall dl lx segs, envelope_ok segs = true ->
+  exists out xf, run_steps dl (fresh lx) segs = Ok (out, xf) /\
+    Forall (fun es => env_codes es = []) out /\ env_codes (cleanup xf) = [].
+Proof. exact envelope_ok_reader_silent. Qed.
+Print Assumptions C06_recount_reader_silent.
+
+(* without a TA1 the acknowledgement is the flattening of a well-formed, consistent C04 document tree; with a TA1
+   (a segment between GE and IEA) no well-formed tree flattens to it *)
+Theorem C06_recount_is_consistent_document :
+  forall dl segs, envelope_ok segs = true -> no_ta1 segs = true ->
+  exists d, wf_doc d = true /\ flatten d = segs /\ consistent dl d.
+Proof. exact envelope_ok_consistent_doc. Qed.
+Print Assumptions C06_recount_is_consistent_document.
+
+(* THE TEXT of the 997, read back *)
+Theorem C06_997_rereads :
+  forall ck h h' lines lx sch,
+  clock_digits ck = true -> echo_clean_997 ck h = true ->
+  render_997 ck h = (h', lines, None) ->
+  exists out,
+    reading lx (concat lines) sch = Ok (version_997 (segs_or_nil_997 ck h), out, Ok []) /\
+    map fst out = reread_997 (segs_or_nil_997 ck h) /\
+    Forall (fun p => env_codes (snd p) = []) out.
+Proof. exact ack997_reread_clean_only. Qed.
+Print Assumptions C06_997_rereads.
+
+Theorem C06_999_rereads :
+  forall ck h h' lines lx sch,
+  clock_digits ck = true -> echo_clean_999 ck h = true ->
+  render_999 ck h = (h', lines, None) ->
+  exists out,
+    reading lx (concat lines) sch = Ok (version_999 (segs_or_nil_999 ck h), out, Ok []) /\
+    map fst out = reread_999 (segs_or_nil_999 ck h) /\
+    Forall (fun p => env_codes (snd p) = []) out.
+Proof. exact ack999_reread_clean. Qed.
+Print Assumptions C06_999_rereads.
+
+(* the hypotheses are satisfiable (a two-group handler state with errors and a TA1) and each is needed *)
+Theorem C06_reread_hypotheses_hold_somewhere :
+  clock_digits cex_ck = true /\ echo_clean_997 cex_ck C05_examples.h_full = true /\ echo_clean_999 cex_ck C05_examples.h_full = true.
+Proof. destruct worked_hypotheses as (A & _ & B & C & _). auto. Qed.
+Print Assumptions C06_reread_hypotheses_hold_somewhere.
+
+(* a source group whose GS06 is empty: the 997 completes, passes the recount, and is read back with gs/4 on its GE
+   (the 999 numbers its own group and is silent) — recorded finding *)
+Theorem C06_997_empty_gs06_draws_error :
+  clock_digits cex_ck = true /\ gs06_ok h_empty06 = true /\
+  (exists h', render_997 cex_ck h_empty06 = (h', lines7 h_empty06, None)) /\
+  exists out, codes_of (reading false (concat (lines7 h_empty06)) []) = Some (out, Ok []) /\
+              In (Some (list_ascii_of_string "GE"), [C "gs" "4"]) out.
+Proof.
+  destruct empty_gs06_draws_gs4 as (A & B & R & _ & E & _). split; [exact A|]. split; [exact B|]. split; [exact R|].
+  eexists. split; [exact E|]. cbn. tauto.
+Qed.
+Print Assumptions C06_997_empty_gs06_draws_error.
